@@ -266,6 +266,7 @@ def main():
             continue
         for k, v in g.rule_hits.items():
             rule_hits[k] = rule_hits.get(k, 0) + v
+        us["slowest_functions_s"] = [(k.split("::")[-1], round(v, 2)) for k, v in sorted(r.fn_times.items(), key=lambda kv: -kv[1])[:3]]      # > ~20 s would be an unstable query: split it into lemmas
         us["dropped"] = g.dropped
         us["generated_sha256"] = g.sha
         # mechanical scan of the generated file for every construct that is an assumption, not a proof
